@@ -302,6 +302,16 @@ def run(tier):
         chk.count(("eval", sitem["expression"], sitem["allow_python"]))
     chk.coverage["evaluations"] += len(esrc)
 
+    # ---------------- K: tree-walking specification and data VM vs the real expansion ----------------
+    mism_s, err_s, nsh_s, ssrc, sskipped = tc.k_spec("C17", "k_spec", rng, 1500 if thorough else 200, min(maxdepth, 5))
+    if mism_s or err_s:
+        k_broken = True
+        k_detail["spec_mismatches"] = [ssrc[i] for i in mism_s[:5]]
+        k_detail["errors"].append(err_s)
+    chk.coverage["evaluations"] += len(ssrc)
+    for x in ssrc[::17]:
+        chk.count(("spec", x["template"]))
+
     # ---------------- K: RepeatVariable arithmetic, exhaustive for positions 0..5000 ----------------
     pairs = []
     for pos in range(0, 5001):
@@ -351,8 +361,9 @@ def run(tier):
         "evaluate_expressions": len(esrc), "evaluate_mismatches": len(mism_e), "evaluate_raised_skipped": eskipped,
         "evaluate_not_found_results": sum(1 for x in esrc if x["real"]["res"] is None),
         "evaluate_with_python_evaluations": sum(1 for x in esrc if x["real"]["evals"] > 0),
+        "spec_and_data_vm_cases": len(ssrc), "spec_mismatches": len(mism_s), "spec_skipped": sskipped,
         "repeat_variable_cases": len(pairs), "repeat_variable_mismatches": len(mism_r),
-        "errors": [e for e in (err, err_t, err_r, err_c, err_e) if e],
+        "errors": [e for e in (err, err_t, err_r, err_c, err_e, err_s) if e],
     }
     cov["oracle"] = {"templates": len(cases), "status": stats, "programs_not_wf": notwf,
                      "depth_histogram": {str(k): v for k, v in sorted(depth_hist.items())},
